@@ -89,6 +89,20 @@ impl Relation {
                 _ => None,
             })
             .max_by(|&(_, x), &(_, y)| x.partial_cmp(&y).unwrap())
+            .inspect(|_choice| {
+                #[cfg(feature = "verif-hooks")]
+                crate::verif_hooks::emit(
+                    "rewrite_choice",
+                    vec![
+                        ("entry_point", "rewrite_as_privacy_unit_preserving".into()),
+                        ("score", _choice.1.into()),
+                        (
+                            "output_name",
+                            crate::relation::Variant::name(_choice.0.relation()).into(),
+                        ),
+                    ],
+                );
+            })
             .map(|(relation, _)| relation)
             .ok_or_else(|| Error::unreachable_property("privacy_unit_preserving"))
     }
@@ -121,6 +135,20 @@ impl Relation {
                 _ => None,
             })
             .max_by(|&(_, x), &(_, y)| x.partial_cmp(&y).unwrap())
+            .inspect(|_choice| {
+                #[cfg(feature = "verif-hooks")]
+                crate::verif_hooks::emit(
+                    "rewrite_choice",
+                    vec![
+                        ("entry_point", "rewrite_with_differential_privacy".into()),
+                        ("score", _choice.1.into()),
+                        (
+                            "output_name",
+                            crate::relation::Variant::name(_choice.0.relation()).into(),
+                        ),
+                    ],
+                );
+            })
             .map(|(relation, _)| relation)
             .ok_or_else(|| Error::unreachable_property("differential_privacy"))
     }
